@@ -43,6 +43,11 @@ def worlds(tier):
     ws.append({"name": "EDF-enforce-3tasks-1pool", "policy": "EDF", "n": 3, "nstrat": 1, "pools": 1, "occ": False, "split": 6, "weight": 30, "enforce": True, "units": ["US", "US", "US"]})
     ws.append({"name": "LSF-late-tasks-3tasks-1pool", "policy": "LSF", "n": 3, "nstrat": 1, "pools": 1, "occ": False, "split": 6, "weight": 30, "units": ["US", "US", "US"], "late": True,
                "fixed_demand": True})
+    for pol in (("LSF",) if tier == "quick" else ("LSF", "EDF", "FIFO")):
+        # one pool of two workers that own different resource types (the worker a strategy lands on is determined by its type):
+        # the policy's bookkeeping of what it has already handed out must agree with the strategy it reports
+        ws.append({"name": f"{pol}-2tasks-2strategies-pool-of-two-workers-with-different-resource-types", "policy": pol, "n": 2, "nstrat": 2, "pools": 1, "occ": False, "split": 7, "weight": 40,
+                   "units": ["US", "US"], "split_types": True})
     if tier == "thorough":
         for pol in ("EDF", "FIFO", "LSF"):
             ws.append({"name": f"{pol}-4tasks-2pools", "policy": pol, "n": 4, "nstrat": 1, "pools": 2, "occ": False, "split": 9, "weight": 600, "units": ["US", "MS", "US", "MS"],
@@ -61,8 +66,9 @@ def mk_task(env, i, w, now):
     for s in range(w["nstrat"]):
         rt = env.int(f"rt{i}_{s}", 1, 2 ** 20)
         dem = (1 + (i + s) % 2) if w.get("fixed_demand") else env.int(f"dem{i}_{s}", 0, 8)
-        strats.append(ExecutionStrategy(resources=Resources({Resource(name="CPU", _id="any"): dem}, _logger=NULL), batch_size=1, runtime=EventTime(rt, US)))
-        sp.append((rt, dem))
+        rtype = ["CPU", "GPU"][(i + s) % 2] if w.get("split_types") else "CPU"
+        strats.append(ExecutionStrategy(resources=Resources({Resource(name=rtype, _id="any"): dem}, _logger=NULL), batch_size=1, runtime=EventTime(rt, US)))
+        sp.append((rt, dem, rtype))
     prof = WorkProfile(name=f"p{i}", execution_strategies=ExecutionStrategies(strats))
     name = ["Tb", "Ta", "Tc", "Td"][i]
     t = Task(name=name, task_graph=f"G{i}", job=Job(name=name, profile=prof), deadline=EventTime(dl, MS if unit == "MS" else US), timestamp=0,
@@ -86,6 +92,15 @@ def run(env, w):
     caps = [env.int(f"cap{k}", 0, 8) for k in range(w["pools"])]
     pools = [WorkerPool(name=f"P{k}", workers=[Worker(name=f"W{k}", resources=Resources({Resource(name="CPU"): caps[k]}, _logger=NULL), _logger=NULL)], _logger=NULL)
              for k in range(w["pools"])]
+    capg = None
+    if w.get("split_types"):
+        capg = env.int("capg", 0, 8)
+        pools = [WorkerPool(name="P0", workers=[Worker(name="Wgpu", resources=Resources({Resource(name="GPU"): capg}, _logger=NULL), _logger=NULL),
+                                                Worker(name="Wcpu", resources=Resources({Resource(name="CPU"): caps[0]}, _logger=NULL), _logger=NULL)], _logger=NULL)]
+
+    def cap_of(k, rtype):
+        return capg if rtype == "GPU" else caps[k]
+
     wps = WorkerPools(pools)
     occ = [0] * w["pools"]
     if w["occ"]:
@@ -121,7 +136,7 @@ def run(env, w):
         if w["policy"] == "FIFO":
             return p["rel"]
         slow = p["strats"][0][0]
-        for (rt, _) in p["strats"][1:]:
+        for (rt, _, _) in p["strats"][1:]:
             slow = pysym.site(rt > slow, rt, slow)
         return p["dl_us"] - now - slow
 
@@ -134,11 +149,12 @@ def run(env, w):
         si = [k for k, so in enumerate(params[i]["strat_objs"]) if so is pl.execution_strategy]
         env.require("C13:strategy-belongs-to-task", len(si) == 1)
         if len(si) == 1:
-            placed[i] = (pid[pl.worker_pool_id], params[i]["strats"][si[0]][1])
+            placed[i] = (pid[pl.worker_pool_id], params[i]["strats"][si[0]][1], params[i]["strats"][si[0]][2])
         env.require("C13:placed-now", pl.placement_time == EventTime(now, US))
     # joint fit of what was placed
     for k in range(w["pools"]):
-        env.require("C13:placed-fits-jointly", occ[k] + sum(d for (pk, d) in placed.values() if pk == k) <= caps[k], f"pool {k}")
+        for rtype in (("CPU", "GPU") if w.get("split_types") else ("CPU",)):
+            env.require("C13:placed-fits-jointly", (occ[k] if rtype == "CPU" else 0) + sum(d for (pk, d, ty) in placed.values() if pk == k and ty == rtype) <= cap_of(k, rtype), f"pool {k} {rtype}")
     order = []
     for i, t in enumerate(tasks):
         pl = by_task.get(t.name, [None])[0]
@@ -149,14 +165,14 @@ def run(env, w):
         if pl.is_placed():
             continue
         # unplaced: no strategy may fit any pool once the placed tasks of higher-or-equal priority are accounted for
-        for (rt, dem) in params[i]["strats"]:
+        for (rt, dem, rtype) in params[i]["strats"]:
             for k in range(w["pools"]):
-                used = occ[k]
-                for j, (pk, dj) in placed.items():
-                    if pk == k:
+                used = occ[k] if rtype == "CPU" else 0
+                for j, (pk, dj, tyj) in placed.items():
+                    if pk == k and tyj == rtype:
                         used = used + pysym.site(keys[j] <= keys[i], dj, 0)
-                env.require("C13:unplaced-only-if-nothing-fits", dem > caps[k] - used, f"task {i} pool {k}")
-    env.observe("placed", sorted((i, pk) for i, (pk, d) in placed.items()))
+                env.require("C13:unplaced-only-if-nothing-fits", dem > cap_of(k, rtype) - used, f"task {i} pool {k} {rtype}")
+    env.observe("placed", sorted((i, pk) for i, (pk, d, ty) in placed.items()))
     harness.finish_path(env)
 
 
